@@ -38,7 +38,7 @@ def c18(ctx):
     RA.rule_cap(ctx)
     RA.rule_logstep(ctx)
     RA.rule_findbase_post(ctx)
-    RM.rule_logmerge_shape(ctx)
+    RM.rule_logmerge_shape(ctx, rounding=False)       # C18: the reserved-range and ceiling branches of the log merge; rounding is C09's
     ctx.floor("findbase-post", 3)
     ctx.floor("range", 2 * 15 + 6, "15 decidable counter stores x2 bounds + unsigned subtractions")
     ctx.floor("mono", 6)
@@ -487,7 +487,6 @@ def c09(ctx):
     RA.rule_cover(ctx, mk)
     RA.rule_sumcounters(ctx, mk)
     RM.rule_logmerge_shape(ctx)
-    RT.rule_mergeguard(ctx, COUNTMIN)
     RT.rule_wrapper_once(ctx, COUNTMIN, ("merge",))
     RT.rule_state_owner(ctx, COUNTMIN, methods=("merge",))
     RT.rule_observers(ctx, COUNTMIN)
